@@ -648,6 +648,16 @@ class Evaluator:
         if name in ("vec", "alloc::vec"):
             p.ret = Top("vec")
             return [p]
+        if name == "matches":
+            args = e.get("args")
+            if args and len(args) >= 2:
+                self.ev1(args[0], p)
+                # the pattern was parsed as an expression: `A | B` is an or-pattern, a path is a variant
+                pat = self.describe(args[1]).replace("(", "").replace(")", "")
+                p.ret = Bool(None, desc=f"{self.describe(args[0])} matches {pat}")
+            else:
+                p.ret = Bool(None, desc="matches!(" + (e.get("tokens") or "")[:60] + ")")
+            return [p]
         self.unknown.append(("macro", name, line))
         p.ret = Top("macro:" + name)
         return [p]
@@ -884,6 +894,13 @@ class Evaluator:
         rname = recv.name if isinstance(recv, Obj) else None
         args = [self.ev1(a, p) for a in e["args"]]
         descs = [self.describe(a) for a in e["args"]]
+        if m == "parse" and not args and not (isinstance(recv, Obj) and recv.name == "parser"):
+            # str::parse::<T>() is from_str_radix(.., 10) for the integer types
+            tf = (e.get("turbofish") or "").replace(" ", "").replace("::<", "").replace(">", "").replace("<", "")
+            ty = tf if tf in INT_TYPES else "?"
+            p.effects.append(Effect("from_str_radix", line, ty=ty, radix=10, text=recv, text_desc=self.describe(recv_node)))
+            p.ret = Res(Num(ty, p_var("n"), src=recv), True)
+            return [p]
         comb = self.combinator(recv, recv_node, m, args, p, line)
         if comb is not None:
             return comb
